@@ -43,8 +43,46 @@ func c17(c *engine.Ctx) {
 	bd := engine.NewBounds()
 	bd.SkipUpper = true
 	allocs, sites, skips := 0, 0, 0
-	for _, name := range c17Funcs {
-		fn := c.Func("proto/codec", name)
+	// the anchor set, closed under static calls that stay inside proto/codec
+	// (a helper introduced on a read path is analysed too)
+	names := append([]string{}, c17Funcs...)
+	fnOf := map[string]*ssa.Function{}
+	seenFn := map[*ssa.Function]bool{}
+	for k := 0; k < len(names); k++ {
+		fn := fnOf[names[k]]
+		if fn == nil {
+			fn = c.Func("proto/codec", names[k])
+		}
+		if fn == nil || seenFn[fn] {
+			continue
+		}
+		seenFn[fn] = true
+		fnOf[names[k]] = fn
+		for _, f := range engine.WithAnon(fn) {
+			for _, call := range engine.Calls(f) {
+				cal := call.Common().StaticCallee()
+				if cal == nil || cal.Pkg == nil || cal.Pkg != fn.Pkg || seenFn[cal] || len(cal.Blocks) == 0 {
+					continue
+				}
+				nm := cal.Name()
+				if recv := cal.Signature.Recv(); recv != nil {
+					t := recv.Type()
+					if p, ok := t.(*types.Pointer); ok {
+						t = p.Elem()
+					}
+					if n, ok := t.(*types.Named); ok {
+						nm = n.Obj().Name() + "." + nm
+					}
+				}
+				if _, dup := fnOf[nm]; !dup {
+					fnOf[nm] = cal
+					names = append(names, nm)
+				}
+			}
+		}
+	}
+	for _, name := range names {
+		fn := fnOf[name]
 		if fn == nil {
 			if name == "NoHeader.Read" {
 				continue
@@ -62,6 +100,23 @@ func c17(c *engine.Ctx) {
 				iv := bd.IV.At(arg, call)
 				c.Check(iv.Lo >= 0 && iv.Hi <= limit+12, "C17.R1", name+"/"+id+"#"+ordinalCall(fn, call), call.Pos(),
 					"allocation size %s ∈ %s must lie in [0, %d] (frame limit + header)", engine.Describe(arg), iv, limit+12)
+			case "(encoding/binary.littleEndian).Uint16", "(encoding/binary.littleEndian).Uint32", "(encoding/binary.littleEndian).Uint64",
+				"(encoding/binary.bigEndian).Uint16", "(encoding/binary.bigEndian).Uint32", "(encoding/binary.bigEndian).Uint64",
+				"(encoding/binary.littleEndian).PutUint16", "(encoding/binary.littleEndian).PutUint32", "(encoding/binary.littleEndian).PutUint64",
+				"(encoding/binary.bigEndian).PutUint16", "(encoding/binary.bigEndian).PutUint32", "(encoding/binary.bigEndian).PutUint64":
+				// the byte-order helpers index their argument at width-1
+				skips++
+				need := int64(2)
+				switch id[len(id)-2:] {
+				case "32":
+					need = 4
+				case "64":
+					need = 8
+				}
+				arg := engine.Args(call.Common())[1]
+				lb := bd.LenLB(arg, call)
+				c.Check(lb >= need, "C17.R2", name+"/byteorder#"+ordinalCall(fn, call), call.Pos(),
+					"%s reads %d bytes of %s whose length is only known to be ≥ %d here", engine.Short(id), need, engine.Describe(arg), lb)
 			case "(*bin.Buffer).Skip":
 				skips++
 				arg := call.Common().Args[1]
